@@ -130,13 +130,17 @@ func TestC07(t *testing.T) {
 	rep := newReport()
 	defer rep.Write(t)
 	cap := uint32(3)
+	c02cap := uint32(9)
+	if thorough() {
+		cap, c02cap = 4, 16
+	}
 	worlds := []struct {
 		name string
 		sc   *swimCheck
 	}{
 		{"mixed", &swimCheck{wc: worldCfg{Peers: 1, Reclaim: 10e9}, alphabet: c07MixedAlphabet}},
-		{"c01-world", &swimCheck{wc: worldCfg{Peers: 2, Reclaim: 10e9}, alphabet: c01Alphabet([]string{"x"}, cap, false)}},
-		{"c02-world", &swimCheck{wc: worldCfg{Peers: 2}, alphabet: c02Alphabet(9, false)}},
+		{"c01-world", &swimCheck{wc: worldCfg{Peers: 2, Reclaim: 10e9}, alphabet: c01Alphabet([]string{"x"}, cap, thorough())}},
+		{"c02-world", &swimCheck{wc: worldCfg{Peers: 2}, alphabet: c02Alphabet(c02cap, thorough())}},
 		{"c08-peer-world", &swimCheck{wc: worldCfg{Peers: 2, Reclaim: 10e9}, alphabet: c08PeerAlphabet(cap)}},
 		{"c08-leaver-world", &swimCheck{wc: worldCfg{Peers: 2}, alphabet: c08LeaverAlphabet}},
 		{"c18-world", &swimCheck{wc: worldCfg{Peers: 1, Reclaim: 10e9, CIDRs: []string{"10.0.0.0/8"}}, alphabet: c18Alphabet([]string{"A", "A16", "B", "X4", "X16", "L5"})}},
@@ -206,7 +210,11 @@ func TestC07(t *testing.T) {
 			})
 		}
 		rep.Extra["cluster_executions"] = nExecs
-		runTSet(t, rep, c01TScenarios(true), 2, 8000, func(v string) bool { return strings.HasPrefix(v, "event-log") || v == "concurrent-callbacks" })
+		tb := 2
+		if thorough() {
+			tb = 3
+		}
+		runTSet(t, rep, c01TScenarios(true), tb, 8000, func(v string) bool { return strings.HasPrefix(v, "event-log") || v == "concurrent-callbacks" })
 	}
 	rep.Distinct = rep.States
 	rep.Evaluations = rep.Transitions
